@@ -481,6 +481,154 @@ class Run:
                     self.count("values: model bytes -> implementation equal")
 
 
+# --------------------------------------------------------------------------
+# in-kernel replay of a sample (keeps extraction out of the trusted base for it)
+
+
+def _coq_bytes(hx):
+    return "(B [%s])" % "; ".join(str(int(hx[i:i + 2], 16)) for i in range(0, len(hx), 2))
+
+
+def _coq_value(toks, i):
+    t = toks[i]
+    if t == "N":
+        return "VNull", i + 1
+    if t == "T":
+        return "(VBool true)", i + 1
+    if t == "F":
+        return "(VBool false)", i + 1
+    if t == "L[":
+        i += 1
+        items = []
+        while toks[i] != "]":
+            v, i = _coq_value(toks, i)
+            items.append(v)
+        return "(VList [%s])" % "; ".join(items), i + 1
+    if t == "M{":
+        i += 1
+        items = []
+        while toks[i] != "}":
+            k = toks[i][1:]
+            v, i = _coq_value(toks, i + 1)
+            items.append("(%s, %s)" % (_coq_bytes(k), v))
+        return "(VDict [%s])" % "; ".join(items), i + 1
+    c, body = t[0], t[1:]
+    if c == "I":
+        return "(VInt KI64 (%s)%%Z)" % body, i + 1
+    if c == "U":
+        return "(VInt KU64 (%s)%%Z)" % body, i + 1
+    if c == "D":
+        return "(VFloat %d%%N)" % int(body, 16), i + 1
+    if c == "S":
+        return "(VStr %s)" % _coq_bytes(body), i + 1
+    if c == "B":
+        return "(VBin %s)" % _coq_bytes(body), i + 1
+    raise ValueError("token " + t)
+
+
+def _coq_msg(text, structs):
+    toks = text.split()
+    name = toks[0]
+    kinds = structs[name]
+    i = 1
+    fields = []
+    for k in kinds:
+        t = toks[i]
+        if k == "FKId":
+            fields.append("FId (%s)%%Z" % t[1:])
+            i += 1
+        elif k in ("FKUri", "FKStr"):
+            fields.append("FStr %s" % _coq_bytes(t[1:]))
+            i += 1
+        elif k == "FKMsgType":
+            fields.append("FMt (%s)%%Z" % t[1:])
+            i += 1
+        elif k == "FKDict":
+            if t == "N":
+                fields.append("FDict None")
+                i += 1
+            else:
+                v, i = _coq_value(toks, i)
+                fields.append("FDict (Some %s)" % v[len("(VDict "):-1])
+        elif k == "FKList":
+            if t == "N":
+                fields.append("FList None")
+                i += 1
+            else:
+                v, i = _coq_value(toks, i)
+                fields.append("FList (Some %s)" % v[len("(VList "):-1])
+        else:
+            raise ValueError("kind " + k)
+    return '{| m_struct := "%s"%%string; m_fields := [%s] |}' % (name, "; ".join(fields))
+
+
+def _coq_outcome(res, structs):
+    if res.startswith("ok "):
+        return "OOk " + _coq_msg(res[3:], structs)
+    if res.startswith("err "):
+        k = res[4:]
+        m = {"decode": "EDecode", "invalid": "EInvalidMessage", "format": "EFormat", "unknowntype": "EUnknownType"}
+        if k in m:
+            return "OErr " + m[k]
+        if k.startswith("field"):
+            return "OErr (EField %s)" % k[5:]
+    return {"panic": "OPanic", "unsup": "OUnsup", "fuel": "OFuel"}[res]
+
+
+def in_kernel_sample(cases, summary, limit):
+    """cases: dicts with fmt, hex, m_desx (the extracted runner's answer at the intended shape).
+    Writes coq/cases/cases_c14.v and lets coqc evaluate the model on the same bytes by vm_compute."""
+    structs = {s["name"]: [f["kind"] for f in s["fields"]] for s in (summary.get("structs") or [])}
+    picked = []
+    for c in cases:
+        hx = c.get("hex") or ""
+        r = c.get("m_desx")
+        if r is None or len(hx) > 600 or len(picked) >= limit:
+            continue
+        if c["fmt"] == "json" and (" D" in r or r == "unsup"):
+            continue            # the float text oracle is not available inside Coq
+        try:
+            picked.append((c, _coq_outcome(r, structs)))
+        except Exception:
+            continue
+    if not picked:
+        return dict(cases=0, mismatches=0, ok=True, note="no case selected")
+    fm = {"json": "FJson", "msgpack": "FMsgpack", "cbor": "FCbor"}
+    lines = ["(* GENERATED by tools/checks/c14.py on every run: a sample of the byte strings of this run with the",
+             "   outcomes the EXTRACTED model printed; the in-kernel model must give the same. *)",
+             "From Coq Require Import List NArith ZArith Bool String.",
+             "From Coq Require Import Strings.Byte.",
+             "From Nexus Require Import Codec.Bytes Codec.Values Codec.Schema Codec.MsgList Codec.Serial Codec.Canon Codec.SerialProofs gen.GenC14Schema.",
+             "Import ListNotations.", "Local Open Scope list_scope.",
+             "Definition B (l : list N) : bytes := map n2b l.",
+             "Definition cases : list (nat * (format * bytes * outcome)) := ["]
+    for i, (c, o) in enumerate(picked):
+        lines.append("  (%d%%nat, (%s, %s, %s))%s" % (i, fm[c["fmt"]], _coq_bytes(c.get("hex") or ""), o, ";" if i < len(picked) - 1 else ""))
+    lines += ["].",
+              "Definition run1 (c : format * bytes * outcome) : bool :=",
+              "  outcome_eqb (deserialize (fun _ => None) gen_mp_opts intended_shape gen_schema (fst (fst c)) (snd (fst c))) (snd c).",
+              "Definition mismatches : list nat := map fst (filter (fun c => negb (run1 (snd c))) cases).",
+              "Definition result := Eval vm_compute in mismatches.",
+              "Print result.", ""]
+    d = os.path.join(common.COQ, "cases")
+    os.makedirs(d, exist_ok=True)
+    path = os.path.join(d, "cases_c14.v")
+    with open(path, "w") as f:
+        f.write("\n".join(lines))
+    with common.Lock("coq"):
+        rc, out = common.run(["coqc", "-Q", ".", "Nexus", "-w", "-notation-overridden", "cases/cases_c14.v"], cwd=common.COQ, timeout=1500)
+    m = re.search(r"result\s*=\s*(\[[^\]]*\])", out.replace("\n", " "))
+    bad = None
+    if rc == 0 and m:
+        body = m.group(1).strip()
+        bad = [] if body == "[]" else [int(x) for x in re.findall(r"\d+", body)]
+    res = dict(cases=len(picked), mismatches=(len(bad) if bad is not None else -1), ok=(bad == []),
+               log=out[-600:] if bad != [] else "")
+    if bad:
+        res["first"] = dict(fmt=picked[bad[0]][0]["fmt"], hex=picked[bad[0]][0].get("hex"), extracted=picked[bad[0]][0].get("m_desx"))
+    return res
+
+
 def load_corpus():
     d = os.path.join(common.VERIF, "corpus", PID)
     cases = []
@@ -658,6 +806,12 @@ def main(tier, replay):
     run.dist["mutated"] = dict(cases=done, mutations_by_kind=mstats_all)
 
     common.info("C14: mutated %.1fs" % t.s())
+    ik = in_kernel_sample(gcases[::7] + tcases[::23] + xcases[::11], summary, 1000 if thorough else 60)
+    if not ik["ok"]:
+        run.broken.append(dict(case=dict(fmt=(ik.get("first") or {}).get("fmt"), hex=(ik.get("first") or {}).get("hex"), D="", V=""),
+                               why="in-kernel evaluation of the model differs from the extracted model (or cases_c14.v did not compile): %s %s"
+                                   % (ik.get("first"), ik.get("log", "")[-300:])))
+    common.info("C14: in-kernel sample %.1fs %s" % (t.s(), {k: ik[k] for k in ("cases", "mismatches")}))
     # ---- disagreements between model and implementation: the tie is broken there
     if run.broken:
         b = run.broken[0]
@@ -703,6 +857,7 @@ def main(tier, replay):
         translator=dict(errors=terrors, notes=summary.get("notes"), shape=shape, mp_opts=mp_opts),
         tie_broken=tie_broken, unrepaired_shape=defect_shapes,
         correspondence_disagreements=len(run.broken),
+        in_kernel_sample=dict(cases=ik["cases"], mismatches=ik["mismatches"], file="coq/cases/cases_c14.v"),
         first_disagreements=[dict(fmt=b["case"].get("fmt"), hex=(b["case"].get("hex") or "")[:200], why=b["why"][:400]) for b in run.broken[:25]],
         findings=[f["signature"] for f in run.findings],
         hygiene=hyg,
